@@ -45,7 +45,13 @@ CLAIM = dict(
          "CombinedMultiDict, ImmutableDict, TypeConversionDict, ImmutableTypeConversionDict, ImmutableList, FileMultiDict, CallbackDict), "
          "FileMultiDict, get(type=...) conversions, None values. Known findings: CombinedMultiDict.__eq__ compares the empty "
          "dict storage, so any two CombinedMultiDict are equal; HeaderSet item assignment can create a case-insensitive "
-         "duplicate; MultiDict.setlist(k, []) / setlistdefault(k) leave an empty list on which items()/values() raise IndexError.",
+         "duplicate; MultiDict.setlist(k, []) / setlistdefault(k) leave an empty list on which items()/values() raise IndexError."
+         " Statement pins: tools/pins/c08_containers.txt: every method of iter_multi_items, ImmutableList, TypeConversionDict, "
+         "ImmutableTypeConversionDict, MultiDict, the ordered variants, CombinedMultiDict, ImmutableDict, ImmutableMultiDict, "
+         "HeaderSet, Headers, EnvironHeaders, _options_header_vkw, _str_header_value, the immutable mixins (minus the blocked "
+         "mutators, which are table rows), FileMultiDict and wrappers Request.__init__, with holes where the case-folded "
+         "expressions are translated. Validated differentially only, no pin wanted: CPython dict / list / set / str methods, "
+         "copy and pickle (library code, not werkzeug code).",
     design="6/C08")
 
 
@@ -253,7 +259,93 @@ INVENTORY = {
 DICT_MUTATORS = ["__delitem__", "clear"]
 
 
+# ---- statement pins (PIN_AUDIT): everything the hand-written model stands for that is not translated is compared, as
+# normalised source text, with a committed pin; the texts that _cond / _expr translated become holes.
+_REC = {"depth": 0, "texts": []}
+
+
+def _recording(fn):
+    def wrapped(node, *a, **k):
+        top = _REC["depth"] == 0
+        _REC["depth"] += 1
+        try:
+            return fn(node, *a, **k)
+        finally:
+            _REC["depth"] -= 1
+            if top and isinstance(node, ast.AST) and not isinstance(node, (ast.Name, ast.Constant)):
+                _REC["texts"].append(ast.unparse(node))
+    wrapped.__name__ = fn.__name__
+    return wrapped
+
+
+_cond = _recording(_cond)
+_expr = _recording(_expr)
+
+
+def _norm(node):
+    """copy of a def / class with every docstring, annotation and typing overload stub removed"""
+    import copy
+    node = copy.deepcopy(node)
+    for n in ast.walk(node):
+        body = getattr(n, "body", None)
+        if isinstance(n, (ast.FunctionDef, ast.AsyncFunctionDef, ast.ClassDef)) and isinstance(body, list):
+            body[:] = [x for x in body if not (isinstance(x, ast.FunctionDef) and any("overload" in ast.unparse(d) for d in x.decorator_list))]
+            if body and isinstance(body[0], ast.Expr) and isinstance(body[0].value, ast.Constant) and isinstance(body[0].value.value, str):
+                del body[0]
+            if not body:
+                body.append(ast.Pass())
+        if isinstance(n, (ast.FunctionDef, ast.AsyncFunctionDef)):
+            n.returns = None
+            for a in n.args.posonlyargs + n.args.args + n.args.kwonlyargs + [x for x in (n.args.vararg, n.args.kwarg) if x]:
+                a.annotation = None
+    return node
+
+
+def _hole_inner(fn, names):
+    """names: the functions whose nested on_update callback is translated as a whole: its body becomes a hole"""
+    if fn.name not in names:
+        return fn
+    for n in ast.walk(fn):
+        if n is not fn and isinstance(n, ast.FunctionDef) and n.name == "on_update":
+            n.body = [ast.Expr(ast.Name(id="TRANSLATED_BODY", ctx=ast.Load()))]
+    return fn
+
+
+def pin_items(mod, spec, holes=None, skip_assign=lambda a: False, inner_translated=()) -> str:
+    """spec: names of top-level defs / classes / assignments of the parsed module, or (class name, [methods left out because a
+    table row is translated from each of them]).  Result: one block per function / method / class-level statement."""
+    out = []
+    for item in spec:
+        name, drop = item if isinstance(item, tuple) else (item, [])
+        nodes = [n for n in mod.body if (isinstance(n, (ast.FunctionDef, ast.ClassDef)) and n.name == name)
+                 or (isinstance(n, ast.Assign) and ast.unparse(n.targets[0]) == name)
+                 or (isinstance(n, ast.AnnAssign) and ast.unparse(n.target) == name)]
+        nodes = [n for n in nodes if not (isinstance(n, ast.FunctionDef) and any("overload" in ast.unparse(d) for d in n.decorator_list))]
+        if not nodes:
+            raise px.Unsupported(f"pinned item {name} is gone")
+        for n in nodes:
+            if isinstance(n, ast.ClassDef):
+                c = _norm(n)
+                out.append(f"## class {c.name}({', '.join(ast.unparse(b) for b in c.bases)})")
+                for m in c.body:
+                    if isinstance(m, (ast.FunctionDef, ast.AsyncFunctionDef)):
+                        if m.name in drop:
+                            continue
+                        _hole_inner(m, inner_translated)
+                        out.append(f"## {c.name}.{m.name}\n" + px.skeleton(m, holes))
+                    elif isinstance(m, ast.Pass) or (isinstance(m, (ast.Assign, ast.AnnAssign)) and skip_assign(m)):
+                        continue
+                    else:
+                        out.append(f"## {c.name}: " + px.skeleton(m, holes))
+            elif isinstance(n, ast.FunctionDef):
+                out.append(f"## {n.name}\n" + px.skeleton(_hole_inner(_norm(n), inner_translated), holes))
+            else:
+                out.append("## " + ast.unparse(n))
+    return "\n".join(out) + "\n"
+
+
 def gen() -> None:
+    _REC["texts"].clear()
     st = px.load("datastructures/structures.py")
     hd = px.load("datastructures/headers.py")
     mx = px.load("datastructures/mixins.py")
@@ -546,6 +638,20 @@ def gen() -> None:
     if [ast.unparse(b) for b in hs.bases] != ["cabc.MutableSet[str]"]:
         raise px.Unsupported("HeaderSet bases changed (its == and hash come from collections.abc.MutableSet)")
     px.write_if_changed(os.path.join(COQ, "C08", "Gen.v"), out)
+    # ---- statement pins, after Gen.v is written: an edit of translated text flows into Gen.v and has to get past the proofs,
+    # an edit anywhere else in the code the model / the oracles stand for is refused here
+    holes = {t_: "<TRANSLATED>" for t_ in _REC["texts"] if len(t_) >= 8}
+    fs = px.load("datastructures/file_storage.py")
+    wr = px.load("wrappers/request.py")
+    text = "# datastructures/structures.py\n" + pin_items(st, [
+        "iter_multi_items", "ImmutableList", "TypeConversionDict", "ImmutableTypeConversionDict", "MultiDict", "_omd_bucket",
+        "_OrderedMultiDict", "CombinedMultiDict", "ImmutableDict", "ImmutableMultiDict", "_ImmutableOrderedMultiDict", "HeaderSet"], holes)
+    text += "# datastructures/headers.py\n" + pin_items(hd, ["_newline_re", "Headers", "_options_header_vkw", "_str_header_value", "EnvironHeaders"], holes)
+    text += "# datastructures/mixins.py\n" + pin_items(mx, [
+        "_immutable_error", "ImmutableListMixin", ("ImmutableDictMixin", idm), ("ImmutableMultiDictMixin", imm), ("ImmutableHeadersMixin", ihm)], holes)
+    text += "# datastructures/file_storage.py\n" + pin_items(fs, ["FileMultiDict"], holes)
+    text += "# wrappers/request.py\n" + "## Request.__init__\n" + px.skeleton(_norm(_method(px.find_class(wr, "Request"), "__init__")), holes) + "\n"
+    px.check_pin("C08", "c08_containers.txt", text, "a container method the C08 model or its oracles stand for")
 
 
 # ====================================================================== harness: encodings
